@@ -221,16 +221,18 @@ func (g *c17Rig) guarded(q *c17Req) string {
 		}
 	}
 	if g.ctx.IsKnown("D-C17-6") && want.Outcome == "hit" {
-		// exact trigger of D-C17-6 (DESIGN D20): after deletions in the (tiny) cache index the engine's own
-		// top-1 search for this query does not return any of the live entries that lie within the cache
-		// distance (it returns nothing, or a farther entry).
-		res, err := g.eng.VSearchWithScores(c17CacheIndex, q.Vec, 1)
+		// exact trigger of D-C17-6 (DESIGN D20): after deletions in the (tiny, <= ~25 entries) cache index the
+		// engine's own nearest-neighbour search for this query (k=10) does not return any of the live fresh
+		// entries that lie within the cache distance (it returns nothing, or only other entries).
+		res, err := g.eng.VSearchWithScores(c17CacheIndex, q.Vec, 10)
 		found := false
-		if err == nil && len(res) > 0 {
+		if err == nil {
 			cm := g.cacheMetric()
-			for _, en := range g.entries {
-				if !en.Removed && en.ID == res[0].ID && c17Class(cm, c17Dist(cm, q.Vec, en.Vec), g.o.Tc) == +1 {
-					found = true
+			for _, r := range res {
+				for _, en := range g.entries {
+					if !en.Removed && en.Fresh && en.ID == r.ID && c17Class(cm, c17Dist(cm, q.Vec, en.Vec), g.o.Tc) == +1 {
+						found = true
+					}
 				}
 			}
 		}
